@@ -29,6 +29,7 @@ fn attempt<A: ArenaX>(path: &std::path::Path, att: &Value) -> Value {
     .with_minimum_segment_size(att["minseg"].as_u64().unwrap_or(8) as u32)
     .with_offset(att["offset"].as_u64().unwrap_or(0))
     .with_truncate(att["truncate"].as_bool().unwrap_or(false))
+    .with_append(att["append"].as_bool().unwrap_or(false))
     .with_read(true);
   let capv = att["cap"].as_u64().unwrap_or(0);
   o = o.maybe_capacity(if capv == 0 { None } else { Some(capv as u32) });
